@@ -382,9 +382,17 @@ func faultHistory(run *vh.Run, rng *vh.Rng, hi int) {
 	if !hasDelete {
 		plan = append(plan, "delete")
 	}
+	// every third history brings a deleted keystore back from its export (with a remark and issued keys: every record
+	// of the import is then written, and each of those writes is failed in turn)
+	if hi%3 == 0 {
+		plan = append(plan, "import")
+	}
 	nops := len(plan)
 	for j := 0; j < nops; j++ {
 		op := genOpKind(rng, wd, plan[j])
+		if op.Kind == "create" && hi%3 == 0 && op.Remark == "" {
+			op.Remark = "cold storage"
+		}
 		if op.Kind == "delete" && wd.priv != nil {
 			op.Unlock, op.Priv = hi%2 == 0, string(wd.priv)
 		}
@@ -487,6 +495,16 @@ func faultHistory(run *vh.Run, rng *vh.Rng, hi int) {
 						out.signFail = fmt.Sprintf("keystore %s, key issued after the failed operation: %v", ks.ID, err)
 						break
 					}
+				}
+			}
+			if cont && !out.crashed && out.err != nil && op.Unlock && !ww.M.IsLocked() && out.signFail == "" {
+				// ... and locking it and unlocking it again with the passphrase that unlocked it before the failed
+				// operation still works (the running instance shows the prior state, passphrase behaviour included)
+				ww.M.Lock()
+				if err := ww.M.Unlock([]byte(op.Priv)); err != nil {
+					out.signFail = fmt.Sprintf("after Lock, the passphrase that unlocked the wallet before the failed operation is refused: %v", err)
+				} else {
+					run.Count("relock_unlock_cycles_after_failed_operation", 1)
 				}
 			}
 			if cont && !out.crashed {
@@ -596,7 +614,7 @@ func faultHistory(run *vh.Run, rng *vh.Rng, hi int) {
 					run.Violate(ci, "running-instance-changed-although-operation-failed", attrs, detail(map[string]interface{}{"diff": "lock state"}))
 				}
 				if out.signFail != "" {
-					run.Violate(ci, "running-instance-changed-although-operation-failed", attrs, detail(map[string]interface{}{"diff": "an unlocked keystore no longer signs: " + out.signFail}))
+					run.Violate(ci, "running-instance-changed-although-operation-failed", attrs, detail(map[string]interface{}{"diff": "an unlocked keystore no longer signs / unlocks: " + out.signFail}))
 				}
 				run.Count("running_instance_checked_after_error", 1)
 			}
@@ -616,7 +634,7 @@ func faultHistory(run *vh.Run, rng *vh.Rng, hi int) {
 			if err == nil && !out.crashed && (plan.Kind == "write" || plan.Kind == "commit") && (op.Kind == "chpub" || op.Kind == "chpriv" || op.Kind == "delete" || (hi+j+pi)%6 == 0) {
 				o2, _, _, dir2, ok2 := execOn(fmt.Sprintf("c%d", pi), plan, true)
 				if ok2 && o2.signFail != "" {
-					run.Violate(ci, "running-instance-changed-although-operation-failed", attrs, detail(map[string]interface{}{"diff": "an unlocked keystore no longer signs: " + o2.signFail}))
+					run.Violate(ci, "running-instance-changed-although-operation-failed", attrs, detail(map[string]interface{}{"diff": "an unlocked keystore no longer signs / unlocks: " + o2.signFail}))
 				}
 				if ok2 && !o2.crashed && o2.contPass != nil {
 					run.Count("continuations_after_faulted_operation", 1)
